@@ -410,6 +410,9 @@ class IR:
             return ("fn", norm_path(c["fn"]))
         if "v" in c:
             return ("c", c["v"], c["ty"], c.get("name"))
+        if "pbytes" in c:
+            # reference to a constant: identified by the pointee's bytes
+            return ("ref", False, ("k", c["ty"].lstrip("&").strip(), "bytes:" + c["pbytes"]))
         return ("k", c["ty"], c.get("name") or "")
 
     def place(self, p, at=None, depth=0):
@@ -518,7 +521,7 @@ class IR:
         return ("k", "other", r.get("s", k))
 
     # -------------------------------------------------------------- guards
-    def edge_conditions(self, bb):
+    def edge_conditions(self, bb, _depth=0):
         """Conditions that hold on entry to `bb` because of dominating branch edges.
 
         Returns a list of (expr, rel, value, (from_bb, to_bb), discr_ty):  rel is '==' (value
@@ -544,6 +547,34 @@ class IR:
             elif t["k"] == "assert" and t.get("t") == child:
                 e = self.term_operand(p, t["cond"])
                 out.append((e, "==", 1 if t["expected"] else 0, (p, child), "bool"))
+        if _depth < 3:
+            # `matches!` / `&&` temporaries: a bool local assigned constants in different arms; the
+            # tested value identifies the arm, whose own dominating conditions then hold as well
+            extra = []
+            for (e, rel, v, edge, dty) in out:
+                if e[0] != "var" or (dty != "bool" and self.ltystr(e[1]) != "bool"):
+                    continue
+                truth = None
+                if rel == "==" and v in (0, 1):
+                    truth = v
+                elif rel == "notin" and len(v) == 1 and v[0] in (0, 1):
+                    truth = 1 - v[0]
+                if truth is None:
+                    continue
+                ds = self.defs.get(e[1], [])
+                arms = []
+                okc = bool(ds)
+                for (bi, si, kind, node) in ds:
+                    if kind != "assign" or node["r"]["k"] != "use" or "c" not in node["r"]["o"] or "v" not in node["r"]["o"]["c"]:
+                        okc = False
+                        break
+                    if node["r"]["o"]["c"]["v"] == truth:
+                        arms.append(bi)
+                if okc and len(arms) == 1 and arms[0] != bb:
+                    for c in self.edge_conditions(arms[0], _depth + 1):
+                        if c not in out and c not in extra:
+                            extra.append(c)
+            out.extend(extra)
         return out
 
     def variant_facts(self, bb):
